@@ -26,6 +26,7 @@ type pingSpec struct {
 	timeout time.Duration // as passed to Ping
 	eff     time.Duration // effective time-out (documented: <=0 or >10s means 2s)
 	sendErr bool
+	trailer bool // truncated replies come with the missing bytes as a link layer trailer
 	// arrival plan
 	matchAt time.Duration // <0: no matching reply
 	ipopts  bool          // IPv4 only: the peer's datagrams carry IP options
@@ -63,6 +64,12 @@ func echoFrame(nic mon.NIC, p *pingSpec, typ4, typ6 byte, id uint16, truncate bo
 	host := toMAC(nic.HostMAC)
 	if p.v6 {
 		msg := refdec.ICMP6(p.dst, nic.HostLLA, typ6, 0, body)
+		if truncate && p.trailer {
+			// the datagram ends after four bytes of the echo message (payload length 4); what follows in the frame - the rest of
+			// the message, identifier first - is link layer trailer and belongs to nobody
+			f := refdec.Ether(host, p.dmac, 0x86dd, 0, refdec.IP6(refdec.IP6Hdr{Class: p.tclass, Next: 58, Hop: 64, Src: p.dst, Dst: nic.HostLLA, PayloadLen: 4}, msg[:4]))
+			return append(f, msg[4:]...)
+		}
 		if truncate {
 			msg = msg[:6]
 		}
@@ -119,6 +126,7 @@ func c19Scenario(c *wk.Ctx, idx int64, r *rand.Rand) (nontrivial string, viol bo
 			p.eff = 2 * time.Second
 		}
 		p.sendErr = r.Intn(10) == 0
+		p.trailer = r.Intn(2) == 0
 		p.ipopts = !p.v6 && r.Intn(3) == 0
 		p.datalen = []int{0, 0, 0, 1, 2, 3}[r.Intn(6)]
 		p.tclass = []byte{0, 0, 0xc0, 0xe0, 0x28, byte(r.Intn(256))}[r.Intn(6)]
